@@ -496,3 +496,59 @@ Proof.
   rewrite sorted_content_idem, (substvar_nodes_tree fixed _ _ Hsv).
   rewrite (psort_id by_text by_text_anti); [reflexivity|]. apply psort_sorted. exact by_text_anti.
 Qed.
+
+(* ------------------------------------------------------------------ impl Ord on ANY two nodes of the safe domain *)
+Theorem relation_cmp_any a b wa wb : relation_wacc a = Ok wa -> relation_wacc b = Ok wb ->
+  wrel_safe wa = true -> wrel_safe wb = true -> relation_cmp a b = Ok (wrel_cmp wa wb).
+Proof.
+  unfold relation_wacc. intros Ha Hb Sa Sb.
+  destruct (relation_name a) as [na| | |] eqn:Ena; try discriminate.
+  destruct (relation_version_p a) as [va| | |] eqn:Eva; try discriminate. injection Ha as <-.
+  destruct (relation_name b) as [nb| | |] eqn:Enb; try discriminate.
+  destruct (relation_version_p b) as [vb| | |] eqn:Evb; try discriminate. injection Hb as <-.
+  unfold relation_cmp, wrel_cmp, wrel_safe in *. cbn [w_name w_ver] in *. rewrite Ena, Enb.
+  destruct (str_cmp na nb); try reflexivity. rewrite Eva, Evb.
+  destruct va as [[oa xa]|], vb as [[ob xb]|]; try reflexivity.
+  destruct (vop_cmp oa ob); try reflexivity. apply ver_cmp_safe; assumption.
+Qed.
+
+Theorem entry_cmp_any ea eb wa wb : entry_wacc ea = Ok wa -> entry_wacc eb = Ok wb ->
+  forallb wrel_safe wa = true -> forallb wrel_safe wb = true ->
+  entry_cmp fixed ea eb = Ok (wentry_cmp wa wb).
+Proof.
+  unfold entry_wacc, entry_cmp, wentry_cmp. cbn [v_entry_ord fixed]. intros Ha Hb.
+  apply res_map_ok in Ha. apply res_map_ok in Hb. revert eb wb Hb.
+  generalize dependent (entry_relations ea). intros la Ha. intros eb wb Hb. generalize dependent (entry_relations eb). intros lb Hb.
+  revert lb wb Hb. induction Ha as [|x wx la wa' Hx _ IH]; intros lb wb Hb Sa Sb.
+  - destruct Hb; reflexivity.
+  - destruct Hb as [|y wy lb wb' Hy Hb]; [reflexivity|].
+    cbn [forallb] in Sa, Sb. apply andb_true_iff in Sa. apply andb_true_iff in Sb. destruct Sa as [Sx Sa], Sb as [Sy Sb].
+    cbn [entry_cmp_lex lex_cmp]. rewrite (relation_cmp_any x y wx wy Hx Hy Sx Sy).
+    destruct (wrel_cmp wx wy); try reflexivity. apply IH; assumption.
+Qed.
+
+Theorem ws_any_tree : forall (t : rtree) (es : list (list wrel)),
+  wacc t = Ok es -> content_safe es = true ->
+  exists t', relations_ws fixed t = Ok t' /\
+    t' = field_tree fixed (sorted_content es) (psort by_text (substvar_nodes t)) /\
+    text t' = canon_text (map (map wrel_c) (sorted_content es)) (map text (psort by_text (substvar_nodes t))) /\
+    wacc t' = Ok (sorted_content es) /\
+    relations_ws fixed t' = Ok t'.
+Proof.
+  intros t es Ha Hs. eexists. split; [apply (relations_ws_spec t es Ha Hs)|]. split; [reflexivity|].
+  split; [apply text_field_tree|]. apply (relations_ws_idem t es _ Ha Hs (relations_ws_spec t es Ha Hs)).
+Qed.
+
+Theorem order_total_preorder :
+  cmp_ok wrel_cmp /\ cmp_ok wentry_cmp /\
+  (forall x y z, cmp_le wentry_cmp x y -> cmp_le wentry_cmp y z -> cmp_le wentry_cmp x z) /\
+  (forall x y, cmp_le wentry_cmp x y \/ cmp_le wentry_cmp y x) /\
+  (forall a b wa wb, relation_wacc a = Ok wa -> relation_wacc b = Ok wb ->
+     wrel_safe wa = true -> wrel_safe wb = true -> relation_cmp a b = Ok (wrel_cmp wa wb)) /\
+  (forall ea eb wa wb, entry_wacc ea = Ok wa -> entry_wacc eb = Ok wb ->
+     forallb wrel_safe wa = true -> forallb wrel_safe wb = true ->
+     entry_cmp fixed ea eb = Ok (wentry_cmp wa wb)).
+Proof.
+  split; [exact wrel_cmp_ok|]. split; [exact wentry_cmp_ok|]. split; [apply (cle_trans wentry_cmp wentry_cmp_ok)|].
+  split; [apply (cle_total wentry_cmp wentry_cmp_ok)|]. split; [exact relation_cmp_any|exact entry_cmp_any].
+Qed.
